@@ -118,10 +118,10 @@ def run(tier, work):
     print("RUN %d scenarios in %.1fs" % (len(exs), time.time() - t1))
     # ---- process-level failures
     ncrash = 0
-    for ex in exs:
-        for sig in vlib.crashed(ex):
+    for ex, sigs, raw in vlib.confirmed_crashes(exe, conf, scen, exs, work):
+        for sig in sigs:
             ncrash += 1
-            verdict.add(sig, [json.dumps(allh[int(ex["id"])])] + scen[int(ex["id"])][1], "driver failure in a call_out scenario")
+            verdict.add(sig, [json.dumps(allh[int(ex["id"])])] + scen[int(ex["id"])][1], "driver failure in a call_out scenario", raw=raw)
     # ---- P3
     projs = [project(ex) for ex in exs]
     accepted, nevents, rejects = vlib.validate_executions(SPEC, "CallOutTrace", "CallOutTrace.cfg", projs, work)
